@@ -17,7 +17,9 @@ ROOT = build.ROOT
 
 
 def write_evidence(prop, ev):
-    d = os.path.join(ROOT, "evidence")
+    # (runs against a seeded change - tools/seedcheck.py - write their evidence elsewhere: /verif/evidence only ever
+    # holds what the checks found on /repo itself)
+    d = os.environ.get("VERIF_EVIDENCE_DIR") or os.path.join(ROOT, "evidence")
     os.makedirs(d, exist_ok=True)
     tmp = os.path.join(d, prop + ".json.tmp%d" % os.getpid())
     with open(tmp, "w") as f:
